@@ -122,7 +122,10 @@ var c03ExprRoutes = []c03Wrap{
 	{"func-call-arg", "", `{{ ident(%s) }}`},
 	{"subscript", "", `{{ items[%s] }}`},
 	{"array-literal", "", `{{ [%s, 1]|length }}`},
-	{"later-in-chain", "", `{{ "x"|lower|%s }}`}, // E is inserted as the bare filter name here
+	{"later-in-chain", "", `{{ "x"|lower|%s }}`},   // E is inserted as the bare filter name here
+	{"earlier-in-chain", "", `{{ "x"|%s|lower }}`}, // the banned filter is followed by others
+	{"middle-of-chain", "", `{{ "x"|lower|%s|title|lower }}`},
+	{"filter-tag-chain-first", "filter", `{% filter %s|lower %}body{% endfilter %}`},
 	{"filter-tag", "filter", `{% filter %s %}body{% endfilter %}`},
 	{"filter-tag-chain", "filter", `{% filter lower|%s %}body{% endfilter %}`},
 	// speculative: not valid syntax today; if a change makes it valid the ban must still hold
@@ -238,7 +241,7 @@ func c03Build(cs *c03Case, name string) (string, []string, error) {
 			use += ":1"
 		}
 		switch cs.Expr {
-		case "later-in-chain", "filter-tag", "filter-tag-chain", "paren-then-filter?":
+		case "later-in-chain", "earlier-in-chain", "middle-of-chain", "filter-tag-chain-first", "filter-tag", "filter-tag-chain", "paren-then-filter?":
 			stmt = strings.Replace(er.format, "%s", use, 1)
 		default:
 			stmt = strings.Replace(er.format, "%s", `"ab"|`+use, 1)
@@ -449,7 +452,7 @@ func genC03Route(t *rapid.T) *c03Case {
 
 var _ = register(&propSpec{
 	ID:    "C03.route",
-	Rule:  "ban target = every registered tag / filter (read through the hook, plus an observable probe tag and probe filter); one route = expression position (24 kinds incl. every tag argument, macro defaults/arguments, subscripts, array literals, later in a chain, the filter tag, one speculative form) x 0-3 nested statement wrappers (14 body kinds) x file route (same file, static / nested / lazy include, extends parent block / parent top / child block, imported macro, ssi parsed). Oracle: with the ban the template fails to compile (lazy include: fails to execute), probe counters stay 0, a banned include fetches nothing; the same route is usable in an unbanned set; an unbanned twin renders identically in both sets. Non-trivial: route is not the bare top-level use; distinct by (target, route).",
+	Rule:  "ban target = every registered tag / filter (read through the hook, plus an observable probe tag and probe filter); one route = expression position (27 kinds incl. every tag argument, macro defaults/arguments, subscripts, array literals, first / in the middle / later in a chain, the filter tag, one speculative form) x 0-3 nested statement wrappers (14 body kinds) x file route (same file, static / nested / lazy include, extends parent block / parent top / child block, imported macro, ssi parsed). Oracle: with the ban the template fails to compile (lazy include: fails to execute), probe counters stay 0, a banned include fetches nothing; the same route is usable in an unbanned set; an unbanned twin renders identically in both sets. Non-trivial: route is not the bare top-level use; distinct by (target, route).",
 	Gen:   func(t *rapid.T) any { return genC03Route(t) },
 	New:   func() any { return &c03Case{} },
 	Check: checkC03Route,
